@@ -143,7 +143,8 @@ type Ctx struct {
 	False   *Term
 	NilA    *Term
 	// Rewrite maps term ids to replacement terms while a case of a case split is being executed.
-	Rewrite map[int]*Term
+	Rewrite   map[int]*Term
+	boundVars map[int]*Term
 }
 
 func NewCtx() *Ctx {
@@ -239,7 +240,31 @@ func (c *Ctx) Fresh(prefix string, s Sort) *Term {
 // BoundVar returns a variable intended for use under a quantifier (not declared).
 func (c *Ctx) BoundVar(prefix string, s Sort) *Term {
 	c.fresh++
-	return c.mk(&Term{Op: OpVar, S: s, Name: smtName(fmt.Sprintf("%s?%d", prefix, c.fresh)), K: 1})
+	t := c.mk(&Term{Op: OpVar, S: s, Name: smtName(fmt.Sprintf("%s?%d", prefix, c.fresh)), K: 1})
+	if c.boundVars == nil {
+		c.boundVars = map[int]*Term{}
+	}
+	c.boundVars[t.id] = t
+	return t
+}
+
+// Close universally quantifies the bound-style variables occurring free in f.
+func (c *Ctx) Close(f *Term) *Term {
+	if len(f.free) == 0 {
+		return f
+	}
+	// canonical bound variables, so that alpha-equivalent closures are one hash-consed term
+	var vs []*Term
+	m := map[int]*Term{}
+	for i, id := range f.free {
+		old := c.boundVars[id]
+		name := smtName(fmt.Sprintf("cv%d?%d", i, old.S.W))
+		cv := c.mk(&Term{Op: OpVar, S: old.S, Name: name, K: 1})
+		c.boundVars[cv.id] = cv
+		m[id] = cv
+		vs = append(vs, cv)
+	}
+	return c.Forall(vs, c.Subst(f, m))
 }
 
 // UF declares an uninterpreted function and returns an applier.
@@ -543,6 +568,12 @@ func (c *Ctx) bvEqSimp(a, b *Term) (*Term, bool) {
 	}
 	if a.IsConst() && b.Op == OpIte && b.Args[1].IsConst() && b.Args[2].IsConst() {
 		return c.Ite(b.Args[0], c.Eq(b.Args[1], a), c.Eq(b.Args[2], a)), true
+	}
+	// difference normalises to a constant
+	if a.size+b.size < 200 {
+		if d := c.linear(a, b, true); d.IsConst() {
+			return c.Bool(d.V.Sign() == 0), true
+		}
 	}
 	// (x + k1) == (x + k2)
 	xa, ka := splitAddConst(a)
@@ -904,6 +935,24 @@ func (c *Ctx) linear(a, b *Term, sub bool) *Term {
 		r = c.mk(&Term{Op: OpAdd, S: r.S, Args: []*Term{r, c.BVConst(k, w)}})
 	}
 	return r
+}
+
+// AddRaw builds base+idx without merging the two summands, so that element addresses keep the shape
+// (bvadd off i) that quantified invariants over the same slice use as their E-matching pattern.
+func (c *Ctx) AddRaw(off, i *Term) *Term {
+	if off.IsConst() && off.V.Sign() == 0 {
+		return i
+	}
+	if i.IsConst() && i.V.Sign() == 0 {
+		return off
+	}
+	if off.IsConst() && i.IsConst() {
+		return c.bin(OpAdd, off, i)
+	}
+	if off.IsConst() {
+		return c.Add(off, i)
+	}
+	return c.mk(&Term{Op: OpAdd, S: off.S, Args: []*Term{off, i}})
 }
 
 func (c *Ctx) mkNeg(a *Term) *Term { return c.mk(&Term{Op: OpNeg, S: a.S, Args: []*Term{a}}) }
